@@ -65,9 +65,15 @@ def run_program(image, ops, mount=None, model=None, on_step=None, stop_on_disagr
                         # the volatile state the next operations depend on: in-memory FAT and allocation hint
                         ws, r = mr.m.cmd("fatsig")
                         pf = ir.fs.fs
-                        sig = f"ok {pf.first_free_cluster} {len(pf.fat)} " + core.hashlib.md5(",".join(str(x) for x in pf.fat).encode()).hexdigest()
-                        if r != sig:
-                            d = {"at": i, "op": op, "volatile_fat_or_hint": {"impl": sig, "model": r}}
+                        sig = f"{len(pf.fat)} " + core.hashlib.md5(",".join(str(x) for x in pf.fat).encode()).hexdigest()
+                        t = r.split()
+                        # same table; hints are compared by what they mean — the first free cluster the next scan finds — because a
+                        # rolled-back operation may leave the implementation's hint at another, equally valid, position
+                        def nxt(h):
+                            return next((k for k in range(max(h, 2), len(pf.fat)) if pf.fat[k] == 0), -1)
+                        if " ".join(t[2:]) != sig or nxt(int(t[1])) != nxt(pf.first_free_cluster):
+                            d = {"at": i, "op": op, "volatile_fat_or_hint": {"impl": f"hint {pf.first_free_cluster} -> {nxt(pf.first_free_cluster)} " + sig,
+                                                                             "model": f"hint {t[1]} -> {nxt(int(t[1]))} " + " ".join(t[2:])}}
             out["steps"].append(step)
             if on_step:
                 on_step(i, op, ires, ir)
